@@ -210,3 +210,22 @@ package transaction
 //@ may-panic
 //@ opt frame off
 //@ call unmarshalConditionJSON requires[budget] arg1 == MaxConditionNesting
+
+// Safety of the rest of the transaction decoder (C17): no panic, witness count checked against the
+// signers before anything is allocated for it.
+//@ func (*Transaction).decodeBinaryNoSize
+//@ requires t != nil && io.validR(br) && (buf != nil ==> is(br.r, *bytes.Reader) && len(buf) == len(br.r.in))
+//@ modifies *t, br.Err, br.uv, br.r.pos
+//@ opt frame off
+//@ ensures[reader] io.validR(br)
+//@ ensures[witnesses] br.Err == nil ==> len(t.Scripts) == len(t.Signers)
+//@ loop 0 invariant io.validR(br) && len(t.Scripts) == nscripts
+//@ func (*Transaction).DecodeBinary
+//@ requires t != nil && io.validR(br)
+//@ modifies *t, br.Err, br.uv, br.r.pos
+//@ opt frame off
+//@ ensures[reader] io.validR(br)
+// hashing writes the cached hash only (it serializes the transaction into a digest)
+//@ func (*Transaction).createHash
+//@ assumed
+//@ modifies t.hash, t.hashed
